@@ -517,6 +517,7 @@ pub fn decode_stream(r: &mut Rng, big: bool) -> (bool, Vec<u8>) {
             b.extend_from_slice(&p);
             b
         }
+        5 if r.chance(1, 2) => named_arg_dialect(r, storage),
         3 => {
             // junk in front (storage mode resync)
             let k = r.range(1, 12) as usize;
@@ -539,6 +540,82 @@ pub fn decode_stream(r: &mut Rng, big: bool) -> (bool, Vec<u8>) {
     // storage mode is sometimes flipped relative to the bytes
     let w = if r.chance(1, 10) { !storage } else { storage };
     (w, v)
+}
+
+/// dialect: one verbose argument with variable info, written by hand, whose name / unit / string
+/// fields are terminated, UNTERMINATED (no NUL among the announced bytes), cut by an early NUL,
+/// empty or all NUL - what other writers produce and the crate's own writer never does
+fn named_arg_dialect(r: &mut Rng, storage: bool) -> Vec<u8> {
+    let be = r.flip();
+    let p16 = |n: usize| -> [u8; 2] { if be { (n as u16).to_be_bytes() } else { (n as u16).to_le_bytes() } };
+    let text = |r: &mut Rng| -> Vec<u8> {
+        let base: &[u8] = *r.pick(&[&b"abc"[..], b"x", b"name", b"\xc3\xa9t", b"ab\xff"]);
+        match r.below(6) {
+            0 => { let mut v = base.to_vec(); v.push(0); v }        // terminated
+            1 => base.to_vec(),                                      // unterminated
+            2 => { let mut v = base.to_vec(); v.push(0); v.extend_from_slice(b"zz"); v.push(0); v } // early NUL
+            3 => vec![],                                             // declared length 0
+            4 => vec![0, 0],                                         // only NULs
+            _ => { let mut v = base.to_vec(); v.extend_from_slice(b"\0\0"); v } // doubly terminated
+        }
+    };
+    let kind = r.below(6);
+    let tyle = r.range(1, 5) as u32;
+    let ti: u32 = 0x800
+        | match kind {
+            0 => 0x10 | 1,
+            1 => 0x20 | tyle,
+            2 => 0x40 | tyle,
+            3 => 0x80 | if r.flip() { 3 } else { 4 },
+            4 => 0x200 | if r.flip() { 0x8000 } else { 0 },
+            _ => 0x400,
+        };
+    let mut p: Vec<u8> = if be { ti.to_be_bytes().to_vec() } else { ti.to_le_bytes().to_vec() };
+    let name = text(r);
+    match kind {
+        0 => {
+            p.extend_from_slice(&p16(name.len()));
+            p.extend_from_slice(&name);
+            p.push(r.below(3) as u8);
+        }
+        1..=3 => {
+            let unit = text(r);
+            p.extend_from_slice(&p16(name.len()));
+            p.extend_from_slice(&p16(unit.len()));
+            p.extend_from_slice(&name);
+            p.extend_from_slice(&unit);
+            let w = match ti & 0xF { 1 => 1, 2 => 2, 3 => 4, 4 => 8, _ => 16 };
+            p.extend(r.bytes(w));
+        }
+        4 => {
+            let sv = text(r);
+            p.extend_from_slice(&p16(sv.len()));
+            p.extend_from_slice(&p16(name.len()));
+            p.extend_from_slice(&name);
+            p.extend_from_slice(&sv);
+        }
+        _ => {
+            let k = r.below(5) as usize;
+            let data = r.bytes(k);
+            p.extend_from_slice(&p16(data.len()));
+            p.extend_from_slice(&p16(name.len()));
+            p.extend_from_slice(&name);
+            p.extend_from_slice(&data);
+        }
+    }
+    let mut b = if storage {
+        vec![0x44, 0x4c, 0x54, 0x01, 1, 0, 0, 0, 2, 0, 0, 0, b'E', b'C', b'U', 0]
+    } else {
+        vec![]
+    };
+    let len = (4 + 10 + p.len()) as u16;
+    b.extend_from_slice(&[0x21 | if be { 2 } else { 0 }, 9, (len >> 8) as u8, len as u8]);
+    b.extend_from_slice(&[0x41, 1, b'A', b'P', b'P', 0, b'C', b'T', b'X', 0]);
+    b.extend_from_slice(&p);
+    if r.chance(1, 5) {
+        b.extend(suffix(r));
+    }
+    b
 }
 
 /// messages whose declared length leaves a payload of 0..5 bytes, for one header flag set and each
@@ -937,7 +1014,15 @@ fn nv_field(r: &mut Rng, e: Endianness, t: &TypeInfo) -> Vec<u8> {
             r.bytes(w as usize / 8)
         }
         TypeInfoKind::StringType => {
-            let s = if r.chance(1, 8) { r.bytes(3) } else { utf8_no_nul(r, 10).into_bytes() };
+            let s = match r.below(12) {
+                0 => r.bytes(3),
+                // NUL bytes are part of a non-verbose string like any other: at the end, inside, alone
+                1 => { let mut v = utf8_no_nul(r, 6).into_bytes(); v.push(0); v }
+                2 => { let mut v = utf8_no_nul(r, 4).into_bytes(); v.extend_from_slice(b"\0\0"); v }
+                3 => { let mut v = utf8_no_nul(r, 3).into_bytes(); v.push(0); v.extend(utf8_no_nul(r, 3).into_bytes()); v }
+                4 => vec![0],
+                _ => utf8_no_nul(r, 10).into_bytes(),
+            };
             let mut v = put16(s.len() as u16).to_vec();
             v.extend(s);
             v
